@@ -1,4 +1,5 @@
 import JL.Generated.Fns
+import JL.Lemmas.TieAuto
 import JL.Tie.to_string
 import JL.Tie.str_to_number
 /-! tie: `abstract_eq`, as translated from the crate's current source, is the model's function - for every input -/
@@ -11,50 +12,56 @@ theorem ofF64_one : Num.ofF64? (Rs.to_f64 (1 : Nat)) = some (.flt F64.one) := by
 theorem ofF64_zero : Num.ofF64? (Rs.to_f64 (0 : Nat)) = some (.flt F64.zero) := by decide +kernel
 
 /-- neither a boolean nor a container -/
-def isPrim : Json → Bool
+@[reducible] def isPrim : Json → Bool
   | .null | .num _ | .str _ => true
   | _ => false
 
 /-- not a boolean -/
-def notBool : Json → Bool
+@[reducible] def notBool : Json → Bool
   | .bool _ => false
   | _ => true
 
-/-- arms 1-6: null / number / string against each other -/
+/-- arms 1-6: null / number / string against each other (no recursive call is reached, whichever way the arms are written) -/
 theorem abstract_eq_prim (a b : Json) (ha : isPrim a = true) (hb : isPrim b = true) :
     Gen.abstract_eq a b = JsOp.eqPrim a b := by
   cases a <;> cases b <;> simp only [isPrim, Bool.false_eq_true] at ha hb <;> unfold Gen.abstract_eq
-    <;> simp [rs, JsOp.eqPrim, str_to_number]
-  all_goals (rename_i x y; first | (cases JsOp.strToNumber y <;> simp) | (cases JsOp.strToNumber x <;> simp))
+    <;> tie_close [JsOp.eqPrim, str_to_number, to_string] splitting JsOp.strToNumber
 
-/-- the container arms: a container meets a string or a number through `to_string` -/
+/-- the container arms: a container meets a string or a number through `to_string`; the recursive call is on primitives -/
 theorem abstract_eq_noBool (a b : Json) (ha : notBool a = true) (hb : notBool b = true) :
     Gen.abstract_eq a b = JsOp.eqNoBool a b := by
   cases a <;> cases b <;> simp only [notBool, Bool.false_eq_true] at ha hb
   all_goals first
-    | (rw [abstract_eq_prim _ _ rfl rfl]; simp [JsOp.eqNoBool]; done)
+    | (rw [abstract_eq_prim _ _ rfl rfl]; tie_close [JsOp.eqNoBool]; done)
     | (unfold Gen.abstract_eq
-       try simp only [to_string]
-       first
-         | (rw [abstract_eq_prim _ _ rfl rfl]; simp [JsOp.eqNoBool]; done)
-         | (simp [JsOp.eqNoBool, JsOp.eqPrim]; done))
+       tie_close [to_string, str_to_number, abstract_eq_prim, isPrim, JsOp.eqNoBool, JsOp.eqPrim])
 
+/-- `Number::from_f64(1.0)`, `Number::from_f64(0.0)` -/
+theorem ofF64_one' : Num.ofF64? F64.one = some (.flt F64.one) := by decide +kernel
+theorem ofF64_zero' : Num.ofF64? F64.zero = some (.flt F64.zero) := by decide +kernel
+
+/-- a boolean on the left becomes a number; the recursive call is on non-booleans -/
 theorem abstract_eq_bool_left (x : Bool) (b : Json) (hb : notBool b = true) :
     Gen.abstract_eq (.bool x) b = JsOp.eqNoBool (JsOp.boolNum x) b := by
   cases x <;> cases b <;> simp only [notBool, Bool.false_eq_true] at hb <;> unfold Gen.abstract_eq
-    <;> simp only [ofF64_one, ofF64_zero] <;> simp [rs, JsOp.boolNum] <;> rw [abstract_eq_noBool _ _ rfl rfl]
+    <;> tie_close [↓ofF64_one, ↓ofF64_zero, ofF64_one', ofF64_zero', JsOp.boolNum, abstract_eq_noBool, notBool]
 
 theorem abstract_eq_bool_right (a : Json) (y : Bool) (ha : notBool a = true) :
     Gen.abstract_eq a (.bool y) = JsOp.eqNoBool a (JsOp.boolNum y) := by
   cases y <;> cases a <;> simp only [notBool, Bool.false_eq_true] at ha <;> unfold Gen.abstract_eq
-    <;> simp only [ofF64_one, ofF64_zero] <;> simp [rs, JsOp.boolNum] <;> rw [abstract_eq_noBool _ _ rfl rfl]
+    <;> tie_close [↓ofF64_one, ↓ofF64_zero, ofF64_one', ofF64_zero', JsOp.boolNum, abstract_eq_noBool, notBool]
+
+theorem abstract_eq_bool_bool (x y : Bool) : Gen.abstract_eq (.bool x) (.bool y) = JsOp.abstractEq (.bool x) (.bool y) := by
+  cases x <;> cases y <;> unfold Gen.abstract_eq
+    <;> tie_close [↓ofF64_one, ↓ofF64_zero, ofF64_one', ofF64_zero', JsOp.abstractEq, JsOp.boolNum, abstract_eq_bool_left,
+      abstract_eq_bool_right, abstract_eq_noBool, notBool, JsOp.eqNoBool, JsOp.eqPrim]
 
 theorem abstract_eq (a b : Json) : Gen.abstract_eq a b = JsOp.abstractEq a b := by
   cases a <;> cases b
   all_goals first
-    | (rw [abstract_eq_noBool _ _ rfl rfl]; simp [JsOp.abstractEq]; done)
-    | (rw [abstract_eq_bool_left _ _ rfl]; simp [JsOp.abstractEq]; done)
-    | (rw [abstract_eq_bool_right _ _ rfl]; simp [JsOp.abstractEq]; done)
-    | (rename_i x y; cases x <;> cases y <;> unfold Gen.abstract_eq <;> simp [rs, JsOp.abstractEq]; done)
+    | exact abstract_eq_bool_bool _ _
+    | (rw [abstract_eq_noBool _ _ rfl rfl]; tie_close [JsOp.abstractEq]; done)
+    | (rw [abstract_eq_bool_left _ _ rfl]; tie_close [JsOp.abstractEq]; done)
+    | (rw [abstract_eq_bool_right _ _ rfl]; tie_close [JsOp.abstractEq]; done)
 
 end JL.Tie
